@@ -433,8 +433,9 @@ def check_geometry(rng, n=None, with_blocker=False):
     return fens
 
 
-def random_placements(rng, n, max_extra=20):
-    """G7: arbitrary placements with one king each, pawns anywhere (first/last rank included), up to nine queens a side"""
+def random_placements(rng, n, max_extra=20, any_kings=False):
+    """G7: arbitrary placements, pawns anywhere (first/last rank included), up to nine queens a side;
+    one king each unless any_kings (C14 quantifies over all placements, C06 over those with one king per side)"""
     fens = []
     allsq = [(f, r) for f in range(8) for r in range(8)]
     for _ in range(n):
@@ -442,7 +443,7 @@ def random_placements(rng, n, max_extra=20):
         rng.shuffle(sq)
         grid = {sq[0]: "K", sq[1]: "k"}
         # any number of kings (the property quantifies over all placements): sometimes none, two or three of a colour
-        kq = rng.random()
+        kq = rng.random() if any_kings else 1.0
         if kq < 0.06:
             del grid[sq[0]]
         elif kq < 0.12:
